@@ -193,6 +193,9 @@ func run(t *testing.T, c Case) (v engine.Verdict) {
 						return json.RawMessage(`{"a":`), nil
 					case "emptyraw":
 						return json.RawMessage{}, nil
+					case "baderrdata":
+						// an error whose data are not valid JSON: still an error response, same code
+						return nil, &jrpc2.Error{Code: 7, Message: "m", Data: json.RawMessage(`{"a":`)}
 					}
 					return nil, herr
 				}}, nil)
@@ -221,6 +224,9 @@ func run(t *testing.T, c Case) (v engine.Verdict) {
 		}
 		if !errors.As(cerr, &je) {
 			return engine.Failf("C14/unmarshalable-result-not-an-error", "handler returned an unmarshalable %s, the client got %T %v (want an *Error response)", c.BadResult, cerr, cerr)
+		}
+		if c.BadResult == "baderrdata" && je.Code != 7 {
+			return engine.Failf("C14/errorcode-lost", "handler returned *Error{Code: 7} with data that are not JSON, the client got code %d (%v)", je.Code, je)
 		}
 		return engine.Verdict{NonTrivial: true, Labels: []string{"bad-result:" + c.BadResult}}
 	}
@@ -310,7 +316,7 @@ func genSpec(t *rapid.T, depth int) ErrSpec {
 
 func genCase(t *rapid.T) Case {
 	if rapid.IntRange(0, 19).Draw(t, "bad") == 0 {
-		return Case{BadResult: rapid.SampledFrom([]string{"chan", "func", "nan", "cycle", "badraw", "emptyraw"}).Draw(t, "badkind")}
+		return Case{BadResult: rapid.SampledFrom([]string{"chan", "func", "nan", "cycle", "badraw", "emptyraw", "baderrdata"}).Draw(t, "badkind")}
 	}
 	s := genSpec(t, 0)
 	return Case{Spec: &s}
